@@ -27,7 +27,7 @@ theorem C12_engine_outcome (g : Grammar) (rule : Nat) (input : String) :
   | ok s ts =>
     left
     refine ⟨s, ts, rfl, ?_⟩
-    unfold Peg.parse at h
+    unfold Peg.parse Peg.parseF at h
     have := (engine_inv g input.toList _).1 _ _ _ _ _ _ ⟨[], by simp, by simp [utf8Len]⟩ h
     obtain ⟨pre, h1, h2⟩ := this.1
     refine this.2.2.mono (Nat.le_refl _) ?_
